@@ -84,3 +84,129 @@ theorem seg_append_spec (s : Seg) (b : Block) (buffered : Bool) (h : s.WF) :
       exact ⟨hw, fun _ => by rw [hp, hp'], by simp⟩
 
 end InfluxVerif.HH
+
+namespace InfluxVerif.HH
+
+/-! ### the head of the queue under appends (for the sender, `sendWrite`) -/
+
+/-- `s'` is `s` with more blocks behind the ones it had: same offset, same blocks up to there -/
+def Seg.Ext (s s' : Seg) : Prop := s'.pos = s.pos ∧ ∃ extra, s'.blocks = s.blocks ++ extra
+
+theorem Seg.Ext.refl (s : Seg) : s.Ext s := ⟨rfl, [], by simp⟩
+
+theorem flush_ext (s : Seg) : s.Ext s.flush := by
+  unfold Seg.flush
+  split
+  · exact Seg.Ext.refl s
+  · exact ⟨rfl, s.buf, rfl⟩
+
+theorem seg_append_ext (s : Seg) (b : Block) (buffered : Bool) : s.Ext (s.append b buffered).1 := by
+  unfold Seg.append
+  split
+  · exact flush_ext s
+  · cases buffered with
+    | true => exact ⟨rfl, [], by simp⟩
+    | false =>
+      simp only [Bool.false_eq_true, if_false]
+      have := flush_ext ({ s with buf := s.buf ++ [b] } : Seg)
+      exact ⟨this.1, this.2⟩
+
+theorem ext_getElem (s s' : Seg) (h : s.Ext s') (b : Block) (hb : s.blocks[s.pos]? = some b) :
+    s'.blocks[s'.pos]? = some b := by
+  obtain ⟨hp, extra, he⟩ := h
+  rw [hp, he]
+  have hlt : s.pos < s.blocks.length := by
+    by_contra hge
+    rw [List.getElem?_eq_none (by omega)] at hb
+    cases hb
+  rw [List.getElem?_append_left hlt]
+  exact hb
+
+/-- the head of `updLast f l` is the old head, or `f` of it when it is also the last -/
+theorem updLast_head (f : Seg → Seg) (h : Seg) (rest : List Seg) :
+    ∃ rest', updLast f (h :: rest) = (if rest = [] then f h else h) :: rest' := by
+  cases rest with
+  | nil => exact ⟨[], by simp [updLast]⟩
+  | cons r rs => exact ⟨updLast f (r :: rs), by simp [updLast]⟩
+
+def curOf (segs : List Seg) : Res :=
+  match segs with
+  | [] => .notOpen
+  | h :: _ => match h.blocks[h.pos]? with
+    | none => .eof
+    | some b => .block b
+
+theorem current_eq (q : Q) : q.current = curOf q.segs := by
+  unfold Q.current curOf
+  cases q.segs <;> rfl
+
+/-- replacing the last segment by an extension of it, and adding segments behind, keeps the
+block the head of the queue points at -/
+theorem curOf_updLast (segs : List Seg) (t' : Seg) (more : List Seg) (b : Block)
+    (hext : ∀ t, segs.getLast? = some t → t.Ext t') (hc : curOf segs = .block b) :
+    curOf (updLast (fun _ => t') segs ++ more) = .block b := by
+  cases segs with
+  | nil => simp [curOf] at hc
+  | cons h rest =>
+    obtain ⟨rest', hr⟩ := updLast_head (fun _ => t') h rest
+    rw [hr]
+    simp only [curOf, List.cons_append] at hc ⊢
+    cases hb : h.blocks[h.pos]? with
+    | none => simp [hb] at hc
+    | some b' =>
+      simp only [hb, Res.block.injEq] at hc
+      subst hc
+      by_cases hrest : rest = []
+      · subst hrest
+        simp only [if_true]
+        have := ext_getElem h t' (hext h (by simp)) b' hb
+        simp [this]
+      · simp only [hrest, if_false, hb]
+
+end InfluxVerif.HH
+
+namespace InfluxVerif.HH
+
+/-- an append (accepted or not) does not change the block the head of the queue points at -/
+theorem append_current (q : Q) (b x : Block) (buffered : Bool) (hc : q.current = .block b) :
+    (q.append x buffered).1.current = .block b := by
+  rw [current_eq] at hc ⊢
+  unfold Q.append
+  cases hl : q.segs.getLast? with
+  | none => simpa using hc
+  | some tail =>
+    simp only
+    split
+    · exact hc
+    · have hext : ∀ t, q.segs.getLast? = some t → t.Ext (tail.append x buffered).1 := by
+        intro t ht
+        rw [hl] at ht
+        cases ht
+        exact seg_append_ext tail x buffered
+      have h1 := curOf_updLast q.segs (tail.append x buffered).1 [] b hext hc
+      simp only [List.append_nil] at h1
+      cases hok : (tail.append x buffered).2 with
+      | true => simpa [hok] using h1
+      | false =>
+        simp only [hok, Bool.false_eq_true, if_false]
+        -- a fresh segment becomes the tail
+        have hsegs : ({ q with segs := updLast (fun _ => (tail.append x buffered).1) q.segs } : Q).addSegment.segs
+            = updLast (fun _ => (tail.append x buffered).1) q.segs ++ [newSeg q.nextID q.maxSegSize] := by
+          simp [Q.addSegment]
+        have hl2 : (({ q with segs := updLast (fun _ => (tail.append x buffered).1) q.segs } : Q).addSegment).segs.getLast?
+            = some (newSeg q.nextID q.maxSegSize) := by rw [hsegs]; simp
+        rw [hl2]
+        simp only
+        have hext2 : ∀ t, (updLast (fun _ => (tail.append x buffered).1) q.segs ++ [newSeg q.nextID q.maxSegSize]).getLast? = some t →
+            t.Ext ((newSeg q.nextID q.maxSegSize).append x buffered).1 := by
+          intro t ht
+          simp at ht
+          subst ht
+          exact seg_append_ext _ x buffered
+        have h2 := curOf_updLast _ ((newSeg q.nextID q.maxSegSize).append x buffered).1 [] b hext2
+          (by have := curOf_updLast q.segs (tail.append x buffered).1 [newSeg q.nextID q.maxSegSize] b hext hc; exact this)
+        simp only [List.append_nil] at h2
+        rw [hsegs]
+        exact h2
+
+end InfluxVerif.HH
